@@ -121,6 +121,8 @@ class Engine:
         s._method_index = None
         s._resolve_cache = {}
         s._promoted = {}
+        s.split_loops = {}          # fn name -> debug name of a local: interpreter loops (fetch / execute over a line counter) are explored per
+                                    # concrete value of that local instead of merging all arrivals at the loop header (states at the same value merge)
         s.loop_entry_hooks = {}     # fn name -> callback(engine, fn, info, L, state, fid) at the first arrival at a loop header
         s.trace = False
         s.cur_fn = None
@@ -169,13 +171,14 @@ class Engine:
         v = z3.Int('%s!%d' % (name, next(s.fresh)))
         if lo is not None: s.assume(v >= lo)
         if hi is not None: s.assume(v <= hi)
+        if lo is not None and hi is not None and isinstance(lo, int) and isinstance(hi, int): VAR_BOUNDS[v.get_id()] = (v, lo, hi)
         return v
 
     def fresh_bool(s, name): return z3.Bool('%s!%d' % (name, next(s.fresh)))
 
     def fresh_str(s, name, cap):
         n = next(s.fresh)
-        ln = z3.Int('%s!%d.len' % (name, n)); s.assume(z3.And(ln >= 0, ln <= cap))
+        ln = z3.Int('%s!%d.len' % (name, n)); s.assume(z3.And(ln >= 0, ln <= cap)); VAR_BOUNDS[ln.get_id()] = (ln, 0, cap)
         ch = []
         for i in range(cap):
             c = z3.Int('%s!%d.c%d' % (name, n, i)); ch.append(c)
@@ -713,6 +716,7 @@ class Engine:
         order, members, children, owner = s.region_nodes(info, L)
         pending = {(start if start is not None else (L if L is not None else 0)): st}
         exits = {}; back = None
+        split = L is not None and fn.name in s.split_loops
         for n in order:
             cur = pending.pop(n, None)
             if cur is None: continue
@@ -724,16 +728,55 @@ class Engine:
             for tgt, st2 in outs:
                 if st2 is None or st2.g is False: continue
                 if tgt == L and L is not None:
-                    back = merge_states(st2, back); continue
+                    if split: back = (back or []) + [st2]
+                    else: back = merge_states(st2, back)
+                    continue
                 o = owner(tgt) if tgt != 'RET' else None
                 if o is None: exits[tgt] = merge_states(st2, exits.get(tgt))
                 else: pending[o] = merge_states(st2, pending.get(o))
         if pending: raise Abort('irreducible control flow in %s: %r' % (fn.name, list(pending)))
         return exits, back
 
+    def run_loop_split(s, fn, info, L, st, fid):
+        """an interpreter loop: the states are kept apart per concrete value of the designated local (the line counter); the state with
+        the smallest value runs next, states that arrive at the same value merge"""
+        idx = fn.debug.get(s.split_loops[fn.name])
+        if idx is None: raise Abort('split local %r not found in %s' % (s.split_loops[fn.name], fn.name))
+        all_exits = {}
+        bound = s.unwind_for.get(fn.name, s.unwind)
+
+        def parts(st1):
+            v = st1.m.get((fid, idx))
+            if not is_sym(v): return [(v, st1)]
+            leaves = int_leaves(simp(v))
+            if leaves is None or len(leaves) > 16: return [(None, st1)]
+            out = []
+            for lv in sorted(leaves):
+                g = simp(zand(st1.g, v == lv))
+                if g is False or not s.feasible(g): continue
+                m2 = dict(st1.m); m2[(fid, idx)] = lv
+                out.append((lv, State(g, m2)))
+            return out
+        work = {}
+        for key, st1 in parts(st): work[key] = (st1, 0)
+        while work:
+            key = min(work, key=lambda k_: (k_ is None, k_ if k_ is not None else 0))
+            cur, k = work.pop(key)
+            if k > bound:
+                s.obligations.append(Obligation(cur.g, False, 'unwinding bound %d exceeded in %s loop bb%d' % (bound, fn.name, L), 'unwind', fn.name)); continue
+            exits, backs = s.run_region(fn, info, L, cur, fid)
+            for t, e in exits.items(): all_exits[t] = merge_states(e, all_exits.get(t))
+            for b in (backs or []):
+                if b.g is False or not s.feasible(b.g): continue
+                for key2, st2 in parts(b):
+                    old = work.get(key2)
+                    work[key2] = (merge_states(st2, old[0]), max(k + 1, old[1])) if old else (st2, k + 1)
+        return all_exits
+
     def run_loop(s, fn, info, L, st, fid):
         cb = s.loop_entry_hooks.get(fn.name)
         if cb is not None: cb(s, fn, info, L, st, fid)
+        if fn.name in s.split_loops: return s.run_loop_split(fn, info, L, st, fid)
         all_exits = {}
         bound = s.unwind_for.get(fn.name, s.unwind)
         for k in range(bound + 1):
